@@ -6,6 +6,9 @@ Byte strings are hex, the empty string is `-`.
   write <metric> <key>=<value> ...                 -> series <id> new|old
   prepare-meta | flush-meta | compact-meta -> ok tv=<level-0 files>
   prepare-index | flush-index | compact-index -> ok inv=<level-0 files> fwd=<level-0 files>
+  istep fwd|inv write|commit|drop|fail             -> ok      (one step inside metricIndexDatabase.Flush, as observed)
+  flush-index-end ok|fail                          -> ok inv=.. fwd=..  (the rest of the flush / the flush returned an error)
+  flush-meta-fail                                  -> ok tv=..          (a failed metadata flush changes nothing)
   rx <pattern> ok|bad <literalPrefix> <matching value> ...   (one row of the regexp table) -> ok
   q <metric> <groupKey,groupKey|-> <cond>          -> ok s=<ids> g=<groups> | err <kind> | panic
       cond (prefix form): eq K V | in K n V1..Vn | like K V | rx K P | not C | paren C | and C C | or C C | badop C C
@@ -196,6 +199,27 @@ def step (d : DSt) (ws : List String) : DSt × String :=
   | ["prepare-index"] => placement d .prepareIndex
   | ["flush-index"] => placement d .flushIndex
   | ["compact-index"] => placement d .compactIndex
+  | ["istep", store, what] =>
+    let step? : Option Step := match store, what with
+      | "fwd", "write" => some .fwdWrite | "fwd", "commit" => some .fwdCommit
+      | "fwd", "drop" => some .fwdDrop | "fwd", "fail" => some .fwdFail
+      | "inv", "write" => some .invWrite | "inv", "commit" => some .invCommit
+      | "inv", "drop" => some .invDrop | "inv", "fail" => some .invFail
+      | _, _ => none
+    match step? with
+    | some s => ({ d with st := d.st.step flags s }, "ok")
+    | none => (d, "bad-op")
+  | ["flush-index-end", how] =>
+    let steps? : Option (List Step) := match how with
+      | "ok" => some [.fwdWrite, .fwdCommit, .fwdDrop, .invWrite, .invCommit, .invDrop]
+      | "fail" => some [.fwdFail, .invFail]
+      | _ => none
+    match steps? with
+    | some ss =>
+      let st' := ss.foldl (fun s x => s.step flags x) d.st
+      ({ d with st := st' }, s!"ok inv={st'.inv.l0.length} fwd={st'.fwd.l0.length}")
+    | none => (d, "bad-op")
+  | ["flush-meta-fail"] => (d, s!"ok tv={d.st.dict.l0.length}")
   | "rx" :: p :: ok :: lit :: vals =>
     match unhex p, unhex lit, vals.mapM unhex with
     | some p, some lit, some vs =>
